@@ -1,8 +1,274 @@
+// End-to-end slice of C28: rows stored through the engine are read back by a real client (go-sql-driver/mysql)
+// from a real server.Server on an ephemeral 127.0.0.1 port, once over the text protocol (COM_QUERY) and once over the
+// binary protocol (prepared statement).  Every received column, converted with the column's Type.Convert, must
+// compare equal to the stored value (read directly from the engine), and NULL must arrive as NULL.
 package main
 
-import "verifharness/lib"
+import (
+	gosql "database/sql"
+	"fmt"
+	"net"
+	"strings"
+	"time"
 
-type wireT struct{}
+	_ "github.com/go-sql-driver/mysql"
+	"github.com/sirupsen/logrus"
 
-func runWire(c *lib.Ctx, cs caseT) {}
-func wirePhase(c *lib.Ctx, n int) {}
+	"github.com/dolthub/go-mysql-server/memory"
+	"github.com/dolthub/go-mysql-server/server"
+	gsql "github.com/dolthub/go-mysql-server/sql"
+
+	"verifharness/lib"
+	"verifharness/lib/eng"
+)
+
+// one row: SQL literals per column (same order as wireCols), "NULL" allowed
+type wireT struct {
+	Vals []string `json:"vals"`
+}
+
+var wireCols = []struct{ Name, Decl string }{
+	{"i8", "TINYINT"}, {"u8", "TINYINT UNSIGNED"}, {"i16", "SMALLINT"}, {"u16", "SMALLINT UNSIGNED"},
+	{"i24", "MEDIUMINT"}, {"u24", "MEDIUMINT UNSIGNED"}, {"i32", "INT"}, {"u32", "INT UNSIGNED"},
+	{"i64", "BIGINT"}, {"u64", "BIGINT UNSIGNED"},
+	{"d1", "DECIMAL(10,3)"}, {"d2", "DECIMAL(65,30)"}, {"d3", "DECIMAL(9,0)"},
+	{"dt", "DATE"}, {"ts6", "DATETIME(6)"}, {"ts0", "DATETIME"}, {"ts3", "DATETIME(3)"}, {"tst", "TIMESTAMP(6)"},
+	{"tm", "TIME(6)"}, {"y", "YEAR"}, {"b1", "BIT(1)"}, {"b12", "BIT(12)"}, {"b64", "BIT(64)"},
+	{"en", "ENUM('a','B','x y','2','1')"}, {"st", "SET('a','B','x y','2','1')"},
+}
+
+type wireEnv struct {
+	e   *eng.E
+	s   *eng.S
+	db  *gosql.DB
+	st  *gosql.Stmt
+	srv *server.Server
+	n   int
+}
+
+func newWireEnv() *wireEnv {
+	logrus.SetLevel(logrus.PanicLevel)
+	e := eng.New("db")
+	s := e.Session()
+	var decl []string
+	for _, c := range wireCols {
+		decl = append(decl, c.Name+" "+c.Decl)
+	}
+	s.MustExec("CREATE TABLE w (id INT PRIMARY KEY, " + strings.Join(decl, ", ") + ")")
+	ln, err := net.Listen("tcp", "127.0.0.1:0")
+	if err != nil {
+		panic(err)
+	}
+	cfg := server.Config{Protocol: "tcp", Address: ln.Addr().String(), Listener: ln}
+	srv, err := server.NewServer(cfg, e.Engine, gsql.NewContext, memory.NewSessionBuilder(e.Pro), nil)
+	if err != nil {
+		panic(err)
+	}
+	go func() { _ = srv.Start() }()
+	db, err := gosql.Open("mysql", fmt.Sprintf("root:@tcp(%s)/db?interpolateParams=false", ln.Addr().String()))
+	if err != nil {
+		panic(err)
+	}
+	db.SetMaxOpenConns(2)
+	for i := 0; ; i++ {
+		if err = db.Ping(); err == nil {
+			break
+		}
+		if i > 100 {
+			panic("server does not answer: " + err.Error())
+		}
+		time.Sleep(50 * time.Millisecond)
+	}
+	st, err := db.Prepare("SELECT * FROM w WHERE id = ?")
+	if err != nil {
+		panic(err)
+	}
+	w := &wireEnv{e: e, s: s, db: db, st: st, srv: srv}
+	// warm-up row: the first statement of a server session fixes its view of the (still empty) table otherwise
+	w.n = 1
+	s.MustExec("INSERT INTO w (id) VALUES (1)")
+	for _, q := range []func() (*gosql.Rows, error){
+		func() (*gosql.Rows, error) { return db.Query("SELECT * FROM w WHERE id = 1") },
+		func() (*gosql.Rows, error) { return st.Query(1) },
+	} {
+		if rows, err := q(); err == nil {
+			rows.Close()
+		}
+	}
+	return w
+}
+
+func (w *wireEnv) close() {
+	w.st.Close()
+	w.db.Close()
+	w.srv.Close()
+}
+
+func pickS(r *lib.RNG, xs ...string) string { return xs[r.Intn(len(xs))] }
+
+func genWire(r *lib.RNG) caseT {
+	var v []string
+	intLit := func(name string) string {
+		it := ityByName(name)
+		cs := genInt(r)
+		for cs.Ty != name {
+			cs = genInt(r)
+		}
+		z := bi(cs.Val)
+		if z.Cmp(it.Min) < 0 {
+			z.Set(it.Min)
+		}
+		if z.Cmp(it.Max) > 0 {
+			z.Set(it.Max)
+		}
+		return z.String()
+	}
+	decLit := func(p, s int) string {
+		ip := randDigits(r, r.Range(0, p-s))
+		txt := ip
+		if s > 0 {
+			fp := randDigits(r, s)
+			txt = ip + "." + strings.Repeat("0", s-len(fp)) + fp
+			if r.Chance(1, 4) {
+				txt = ip + "." + randDigits(r, r.Range(1, s)) // fewer fraction digits
+			}
+		}
+		if r.Chance(2, 5) {
+			txt = "-" + txt
+		}
+		return txt
+	}
+	stamp := func(prec int, lo, hi int) string {
+		y := r.Range(lo, hi)
+		m := r.Range(1, 12)
+		d := r.Range(1, 28)
+		s := fmt.Sprintf("'%04d-%02d-%02d %02d:%02d:%02d", y, m, d, r.Intn(24), r.Intn(60), r.Intn(60))
+		if prec > 0 && r.Bool() {
+			s += "." + fmt.Sprintf("%06d", r.Intn(1000000))[:prec]
+		}
+		return s + "'"
+	}
+	for _, n := range []string{"i8", "u8", "i16", "u16", "i24", "u24", "i32", "u32", "i64", "u64"} {
+		v = append(v, intLit(n))
+	}
+	v = append(v, decLit(10, 3), decLit(65, 30), decLit(9, 0))
+	v = append(v, fmt.Sprintf("'%04d-%02d-%02d'", r.Range(1000, 9999), r.Range(1, 12), r.Range(1, 28)))
+	v = append(v, stamp(6, 1000, 9999), stamp(0, 1000, 9999), stamp(3, 1000, 9999), stamp(6, 1971, 2037))
+	tm := fmt.Sprintf("%d:%02d:%02d", r.Intn(839), r.Intn(60), r.Intn(60))
+	if r.Bool() {
+		tm += fmt.Sprintf(".%06d", r.Intn(1000000))
+	}
+	if r.Chance(1, 3) {
+		tm = "-" + tm
+	}
+	v = append(v, "'"+tm+"'")
+	v = append(v, fmt.Sprint(r.Range(1901, 2155)))
+	v = append(v, fmt.Sprint(r.Intn(2)), fmt.Sprint(r.Intn(4096)), fmt.Sprint(r.Uint64()>>uint(r.Intn(64))))
+	v = append(v, pickS(r, "'a'", "'B'", "'x y'", "'2'", "'1'"))
+	v = append(v, pickS(r, "''", "'a'", "'a,B'", "'x y,1'", "'a,B,x y,2,1'", "'2'", "'1,2'"))
+	for i := range v {
+		if r.Chance(1, 25) {
+			v[i] = "NULL"
+		}
+	}
+	return caseT{Kind: "wire", Val: "", Storable: true, Wire: &wireT{Vals: v}}
+}
+
+func (w *wireEnv) row(c *lib.Ctx, cs caseT) {
+	w.n++
+	id := w.n
+	if len(cs.Wire.Vals) != len(wireCols) {
+		panic("wire case does not match the table")
+	}
+	r := w.s.Query(fmt.Sprintf("INSERT INTO w VALUES (%d, %s)", id, strings.Join(cs.Wire.Vals, ", ")))
+	if r.Err != nil || r.Panic != "" {
+		c.CaseNoModel(cs, "")
+		c.Count("wire_insert_rejected")
+		return
+	}
+	st := w.s.Query(fmt.Sprintf("SELECT * FROM w WHERE id = %d", id))
+	if st.Err != nil || len(st.Rows) != 1 {
+		panic(fmt.Sprintf("stored row not readable: %v", st.Err))
+	}
+	cid := c.CaseNoModel(cs, "wire|"+strings.Join(cs.Wire.Vals, "|"))
+	c.Count("wire_row")
+	read := func(proto string) [][]byte {
+		var rows *gosql.Rows
+		var err error
+		if proto == "text" {
+			rows, err = w.db.Query(fmt.Sprintf("SELECT * FROM w WHERE id = %d", id))
+		} else {
+			rows, err = w.st.Query(id)
+		}
+		if err != nil {
+			c.PredFail(cid, "wire/"+proto+"/query-error", err.Error(), cs)
+			return nil
+		}
+		defer rows.Close()
+		if !rows.Next() {
+			c.PredFail(cid, "wire/"+proto+"/no-row", fmt.Sprintf("row %d not received: %v", id, rows.Err()), cs)
+			return nil
+		}
+		raw := make([]gosql.RawBytes, len(wireCols)+1)
+		ptr := make([]interface{}, len(raw))
+		for i := range raw {
+			ptr[i] = &raw[i]
+		}
+		if err := rows.Scan(ptr...); err != nil {
+			c.PredFail(cid, "wire/"+proto+"/scan-error", err.Error(), cs)
+			return nil
+		}
+		out := make([][]byte, len(raw))
+		for i, b := range raw {
+			if b != nil {
+				out[i] = append([]byte{}, b...)
+			}
+		}
+		return out
+	}
+	for _, proto := range []string{"text", "binary"} {
+		got := read(proto)
+		if got == nil {
+			continue
+		}
+		c.PredChecked()
+		for i, col := range wireCols {
+			stored := st.Rows[0][i+1]
+			t := st.Schema[i+1].Type
+			recv := got[i+1]
+			sig := fmt.Sprintf("wire/%s/%s", proto, col.Name)
+			if (stored == nil) != (recv == nil) {
+				c.PredFail(cid, sig+"/null-mismatch", fmt.Sprintf("%s %s: stored %v, client received %q", col.Name, col.Decl, stored, recv), cs)
+				continue
+			}
+			if stored == nil {
+				continue
+			}
+			back, _, err := t.Convert(ctx, string(recv))
+			if err != nil {
+				c.PredFail(cid, sig+"/not-convertible", fmt.Sprintf("%s %s: stored %v, client received %q: %v", col.Name, col.Decl, stored, recv, err), cs)
+				continue
+			}
+			if cmp, err := t.Compare(ctx, back, stored); err != nil || cmp != 0 {
+				c.PredFail(cid, sig+"/reads-back-different", fmt.Sprintf("%s %s: stored %v, client received %q = %v", col.Name, col.Decl, stored, recv, back), cs)
+			}
+		}
+	}
+}
+
+func runWire(c *lib.Ctx, cs caseT) {
+	w := newWireEnv()
+	defer w.close()
+	w.row(c, cs)
+}
+
+func wirePhase(c *lib.Ctx, n int) {
+	if n > 1500 {
+		n = 1500 + (n-1500)/20
+	}
+	w := newWireEnv()
+	defer w.close()
+	for i := 0; i < n; i++ {
+		w.row(c, genWire(c.R.Fork()))
+	}
+}
